@@ -43,11 +43,11 @@ def run(c):
          expect="DescriptorTracksData", name="sensitivity: fileno() tests for the pipe before taking the lock", workers=4)
     fbatch, fmeta = [], []
     for pi, prog in enumerate(pipes.fileno_programs()):
-        for ex in pipes.fileno_explore(prog, "dfs", 1, 40 if c.quick else 400, c.seed):
+        for ex in pipes.fileno_explore(prog, "dfs", 1, 40 if c.quick else 150, c.seed):
             fbatch.append(ex.verdict)
             fmeta.append({"fileno_program": prog, "choices": ex.choices, "labels": ex.labels})
             c.case(key=("fn%d" % pi, tuple(ex.choices)))
-        for ex in pipes.fileno_explore(prog, "random", 0, 5 if c.quick else 60, c.seed * 77 + pi):
+        for ex in pipes.fileno_explore(prog, "random", 0, 5 if c.quick else 30, c.seed * 77 + pi):
             fbatch.append(ex.verdict)
             fmeta.append({"fileno_program": prog, "choices": ex.choices, "labels": ex.labels})
             c.case(key=("fnr%d" % pi, tuple(ex.choices)))
